@@ -442,6 +442,8 @@ def run(ck: Checker) -> None:
     ck.guard("R-WORKLIST", lambda: r_traversals(ck))
     ck.guard("R-GATHER", lambda: check_gather(ck, ck.repo.func(NODE, "ASTNode.gather")))
     ck.guard("R-PRESENCE", lambda: T.r_presence(ck))
+    from . import state_rules as S
+    ck.guard("R-WORKLIST", lambda: S.r_fresh_worklist(ck, "R-WORKLIST", [ck.repo.func(NODE, "ASTNode.dfs"), ck.repo.func(NODE, "ASTNode.bfs")]))
     ck.guard("R-PRESENCE", lambda: T.r_child_abc(ck))
     ck.guard("R-REINSTALL", lambda: T.r_reinstall(ck))
     ck.guard("R-TYPES-CACHE", lambda: T.r_types_cache(ck))  # the child fields enumerated are those of the class asked for  # every class enumerates its own children (no accessor inherited from a base class)
